@@ -720,10 +720,7 @@ Definition P0 : Procs R :=
 Example balance_hypotheses_satisfiable : CallsBalance par0 P0 0 true 1 0 w0 zeroS.
 Proof.
   constructor; cbn; rnum; unfold offered; cbn; rnum; try lra.
-  - intros [H|H]; [discriminate | exfalso; apply H; reflexivity].
-  - unfold Rmax. destruct (Rle_dec 5 0); lra.
-  - unfold Rmax. destruct (Rle_dec 5 0); lra.
-  - intros [H|H]; [discriminate | exfalso; apply H; reflexivity].
+  all: intros [H|H]; [discriminate | exfalso; apply H; reflexivity].
 Qed.
 
 (* ... and the conclusion on it: +5 mm rain ponded, 7 mm evaporated from the pond, 3 mm net irrigation incl. pre-irrigation *)
@@ -738,7 +735,7 @@ Qed.
 Example bounds_hypotheses_satisfiable :
   CallsBounds par0 P0 0 true 1 0 w0 zeroS 10 /\ in_bounds [comp0] (d_th zeroS) /\ surf_ok 10 (d_surface_storage zeroS).
 Proof.
-  assert (B : forall v, 5 / 100 <= v <= 5 / 10 -> in_bounds [comp0] [v]) by (intros v Hv; repeat constructor; cbn; lra).
+  assert (B : forall v, 5 / 100 <= v <= 5 / 10 -> in_bounds [comp0] [v]) by (intros v Hv; constructor; [cbn; lra | constructor]).
   split; [|split; [apply B; cbn; lra | unfold surf_ok; cbn; lra]].
   constructor; cbn; rnum; unfold surf_ok, offered, Rmax; cbn; try (destruct (Rle_dec 5 0)); intros;
     repeat split; try (apply B); try assumption; rnum; try lra.
@@ -750,16 +747,6 @@ Example day1_hypotheses_satisfiable :
   (forall a ws ez s2 w2, evA_dap a = 1%Z -> evA_simoff a = false -> p_ev P0 [comp0] (ev_with a ws ez s2 w2) = p_ev P0 [comp0] a) /\
   (forall a h y, hrA_dap a = 1%Z -> hrA_gs a = true -> (0 <= hrA_dcd a)%Z -> p_hr P0 (hr_with a h y) = p_hr P0 a) /\
   p_sim_off par0 = false /\ (0 <= geR_dcd (rs_ge (results (ctx par0 0 true 1 0 w0 zeroS) P0)))%Z.
-Proof. repeat split; try reflexivity. cbn. lia. Qed.
+Proof. repeat split; try reflexivity. Qed.
 End Ex.
 
-Print Assumptions yield_identities.
-Print Assumptions summary_values.
-Print Assumptions row_wiring.
-Print Assumptions off_season_wiring.
-Print Assumptions day_balance.
-Print Assumptions day_bounds.
-Print Assumptions reset_frame.
-Print Assumptions reset_fields_match.
-Print Assumptions day1_dead.
-Print Assumptions day_step_summary.
